@@ -243,7 +243,9 @@ def verdict(case, sched, result, mon, array, lock, cachers):
         if p.exc is not None and not isinstance(p.exc, SchedAbort):
             raise Violation(f"caller {p.name} failed with {type(p.exc).__name__}: {p.exc} | case={info}") from p.exc
     if result == Sched.DEADLOCK:
-        raise Violation(f"callers wait forever (no runnable caller): blocked={sched.blocked} | case={info} | where={sched.blocked_stacks}")
+        e = Violation(f"callers wait forever (no runnable caller): blocked={sched.blocked} | case={info} | where={sched.blocked_stacks}")
+        e.blocked_in = {name: [fr.split(" ")[-1] for fr in st] for name, st in sched.blocked_stacks.items()}
+        raise e
     held = {i: array.peek(i) for i in array.touched if array.peek(i) != 0}
     require(not held, "lock table not all zero after every caller left", held=held, case=info)
     require(not lock.locked(), "table lock still held at quiescence", case=info)
@@ -322,9 +324,13 @@ def cross_caller_collision_with_nesting(case):
 def classify_sched(case, exc):
     """Known finding: lock-order deadlock through the hash-indexed lock table when nested get_set calls of one caller meet a
     colliding key of another caller (every blocked caller sits in the write-lock retry loop). Nothing else is excused."""
-    if isinstance(exc, Violation) and str(exc).startswith("callers wait forever") and "retry-sleep" in str(exc) \
-            and cross_caller_collision_with_nesting(case):
-        return "C19-nested-get_set-deadlock-on-colliding-index"
+    if isinstance(exc, Violation) and str(exc).startswith("callers wait forever") and cross_caller_collision_with_nesting(case):
+        where = getattr(exc, "blocked_in", None)
+        # the listed deadlock is a cycle of WRITE-lock acquisitions inside get_set; a caller stuck acquiring a read lock,
+        # or inside rmv, is something else and is reported
+        if where and all("_acquire_write_lock" in fns and "get_set" in fns and "_acquire_read_lock" not in fns and "rmv" not in fns
+                         for fns in where.values()):
+            return "C19-nested-get_set-deadlock-on-colliding-index"
     return None
 
 def nontrivial_sched(case):
@@ -355,6 +361,10 @@ ALPHABET = [
     {"op": "get_set", "key": "k74", "getter": "ok", "body": "raise", "body_yields": 1},
     {"op": "rmv", "key": "k74"},
     {"op": "get_set", "key": "k408", "getter": "ok", "body": "ok", "body_yields": 0},
+    {"op": "get_set", "key": "k74", "getter": "ok", "body": "ok", "body_yields": 0,
+     "nested": {"op": "get_set", "key": "k74", "getter": "ok", "body": "ok", "body_yields": 0}},
+    {"op": "get_set", "key": "k74", "getter": "ok", "body": "ok", "body_yields": 0,
+     "nested": {"op": "get_set", "key": "k120", "getter": "ok", "body": "ok", "body_yields": 0}},
 ]
 
 def pb_programs(tier):
@@ -547,6 +557,16 @@ def real_thread_cases(draw, tier):
 
 # ------------------------------------------------------------------------------------------------ real worker processes
 def run_real_procs(case):
+    """One watchdog expiry (60 s; a case normally takes 1-3 s) is inconclusive; three consecutive expiries on the same case are
+    reported: some caller waits for ever."""
+    for attempt in range(3):
+        try:
+            return run_real_procs_once(case)
+        except Inconclusive:
+            if attempt == 2:
+                raise Violation(f"worker processes sharing the cache did not finish within 60 s in three consecutive attempts (a caller waits for ever) | case={case}")
+
+def run_real_procs_once(case):
     from coba.context import CobaContext, NullLogger
     from coba.multiprocessing import CobaMultiprocessor
     from vlib.comps_c19 import CacheUser
@@ -561,8 +581,24 @@ def run_real_procs(case):
         CobaContext.logger = NullLogger()
         logpath = os.path.join(tmp, "getter.log")
         items = [(k, i) for i, k in enumerate(case["keys"])]
-        user = CacheUser(logpath, case["delay"], case["n_lines"], case["procs"])
-        out = list(CobaMultiprocessor(user, case["procs"], case.get("maxtasks", 0)).filter(items))
+        user = CacheUser(logpath, case["delay"], case["n_lines"], case["procs"], case.get("nest", 0))
+        box = {}
+        def target():
+            try:
+                box["out"] = list(CobaMultiprocessor(user, case["procs"], case.get("maxtasks", 0)).filter(items))
+            except BaseException as e:
+                box["exc"] = e
+        t = threading.Thread(target=target, daemon=True)
+        t.start(); t.join(60)
+        if t.is_alive():
+            import multiprocessing as mp
+            for p_ in mp.active_children():
+                try: p_.kill()
+                except Exception: pass
+            raise Inconclusive("watchdog: the worker processes did not finish within 60 s")
+        if "exc" in box:
+            raise Violation(f"CobaMultiprocessor raised {type(box['exc']).__name__}: {box['exc']} | case={case}") from box["exc"]
+        out = box["out"]
         require(sorted(o[0] for o in out) == sorted(items), "items lost or duplicated", out=out)
         for item, lines, pid in out:
             want = [f"{item[0]}-line{i}" for i in range(case["n_lines"])]
@@ -589,6 +625,8 @@ def procs_fixed(tier):
     """two fixed real-process cases that every run executes: three workers meeting on one key of a DiskCacher / of a user-defined file cacher"""
     for kind in ("disk", "file"):
         yield {"cacher": kind, "procs": 3, "keys": ["k74", "k74", "k74", "k408", "k74"], "delay": 0.03, "n_lines": 3, "maxtasks": 0}
+    # a caller nesting many reads of one key: the shared lock table must count far beyond 127 / 255 readers of one slot
+    yield {"cacher": "disk", "procs": 2, "keys": ["k74", "k74", "k1"], "delay": 0.0, "n_lines": 2, "maxtasks": 0, "nest": 300}
 
 SUBCHECKS = [
     Sub(name="sched", run=run_sched, strategy=sched_cases, nontrivial=nontrivial_sched, classes=classes_sched, key=key_sched, classify=classify_sched,
@@ -596,13 +634,13 @@ SUBCHECKS = [
         what="generated caller programs x generated schedules over ConcurrentCacher with instrumented lock/array/inner cache/sleep; invariant monitor, quiescence, sound deadlock detection"),
     Sub(name="pb", run=run_pb, enumerate=pb_enumerate, nontrivial=lambda c: len(c["preemptions"]) >= 1, exhaustive=True,
         quick_shards=4, quick_budget_s=50, thorough_budget_s=1200,
-        what="complete enumeration of all schedules with <= k preemptions of fixed programs over a 5-operation alphabet: quick = two one-operation callers, k=1; thorough = the same with k=2, plus two callers with up to two operations and three one-operation callers with k=1"),
+        what="complete enumeration of all schedules with <= k preemptions of fixed programs over a 7-operation alphabet (incl. nested get_set on the same key and on another key): quick = two one-operation callers, k=1; thorough = the same with k=2, plus two callers with up to two operations and three one-operation callers with k=1"),
     Sub(name="torn", run=run_torn, strategy=torn_cases, nontrivial=lambda c: len(c["lines"]) >= 1, quick=150, thorough=4000,
         quick_shards=2, what="DiskCacher: every byte prefix of a written .gz left on disk, read back directly and through ConcurrentCacher; getters failing after j lines"),
     Sub(name="threads_real", run=run_real_threads, strategy=real_thread_cases, nontrivial=contended, classes=classes_sched, key=key_sched,
         quick=300, thorough=20000, quick_shards=2, what="the same generated caller programs on real threads with a real Lock (OS schedules sampled, switch interval 10 us); same monitor and quiescence oracle"),
-    Sub(name="procs_fixed", run=run_real_procs, enumerate=procs_fixed, nontrivial=lambda c: True, quick_shards=2, thorough_shards=2, quick_budget_s=60,
-        what="two fixed real-process cases (DiskCacher, user-defined file-backed Cacher): three spawned workers rendezvous on one key; complete entry for every item, getter ran once per key"),
+    Sub(name="procs_fixed", run=run_real_procs, enumerate=procs_fixed, nontrivial=lambda c: True, quick_shards=3, thorough_shards=3, quick_budget_s=60,
+        what="three fixed real-process cases (DiskCacher, user-defined file-backed Cacher: three spawned workers rendezvous on one key; DiskCacher with 300 nested reads of one key by each worker); complete entry for every item, getter ran once per key"),
     Sub(name="procs_real", run=run_real_procs, strategy=real_proc_cases, nontrivial=lambda c: len(set(c["keys"])) < len(c["keys"]), quick=4, thorough=160,
         quick_shards=2, thorough_shards=8, quick_budget_s=60, what="CobaMultiprocessor with spawned workers sharing a DiskCacher or a user-defined file-backed Cacher through the marshalled ConcurrentCacher: every item sees the complete entry, the getter ran exactly once per key (OS schedules sampled)"),
 ]
